@@ -23,9 +23,18 @@ NAMES = ['B3E', 'CFOL', 'CPL', 'D', 'FDE', 'G3', 'GO', 'K', 'K3', 'K3W', 'K3WQ',
          'S5L3', 'S5LP', 'S5RM3', 'T', 'TB3E', 'TFDE', 'TG3', 'TK3', 'TK3W', 'TK3WQ', 'TL3', 'TLP', 'TRM3']
 
 
+def vname(values, v):
+    """the name of a truth value of THIS logic; a look-alike member of another logic's value class is marked"""
+    try:
+        own = values[v.name]
+    except Exception:
+        own = None
+    return v.name if own is v else f'{getattr(v, "name", v)}?foreign'
+
+
 def rows_of(tt, via='outputs'):
     pairs = zip(tt.inputs, tt.outputs) if via == 'outputs' else tt.mapping.items()
-    return [{'ins': [v.name for v in ins], 'out': outv.name} for ins, outv in pairs]
+    return [{'ins': [vname(tt.values, v) for v in ins], 'out': vname(tt.values, outv)} for ins, outv in pairs]
 
 
 def tables(lg, keep=None, **kw):
